@@ -1054,10 +1054,19 @@ fn serialise_option<T>(option: DhcpOption, bytes: &[T], v: &mut Vec<u8>)
 where
     T: Serialise,
 {
-    option.serialise(v);
-    (bytes.len() as u8).serialise(v);
-    for i in bytes.iter() {
-        i.serialise(v);
+    /* Values longer than 255 octets are split over several instances of the option (RFC3396);
+     * the decoder concatenates them again.
+     */
+    if bytes.is_empty() {
+        option.serialise(v);
+        0_u8.serialise(v);
+    }
+    for chunk in bytes.chunks(255) {
+        option.serialise(v);
+        (chunk.len() as u8).serialise(v);
+        for i in chunk.iter() {
+            i.serialise(v);
+        }
     }
 }
 
